@@ -133,7 +133,8 @@ def flatArgs (cf : Cfg V) (fs : FS) : List (PV.Src.Expr V) → Option (FS × Lis
       | some (fs2, c2, os) => some (fs2, c1 ++ c2, o1 :: os)
 end
 
-/-- a test: a comparison, or (for `if` only, `truth`) a variable tested for being non-zero:
+/-- a test: a comparison, or (for `if` only, `truth`) a variable, a device read or an `and` / `or`, possibly under `not`, tested
+    for being non-zero:
     (operand code, condition, branch suffix, operands) -/
 def flatTest (cf : Cfg V) (truth : Bool) (fs : FS) : PV.Src.Expr V → Option (FS × List (CStmt V) × String × String × List (Opnd Reg V))
   | .bin op a b =>
@@ -147,6 +148,37 @@ def flatTest (cf : Cfg V) (truth : Bool) (fs : FS) : PV.Src.Expr V → Option (F
           match branchPair op with
           | none => none
           | some (c, neg) => if isLit a && isLit b then none else some (fs2, ca ++ cb, c, neg, [oa, ob])
+    else if truth && (op == "and" || op == "or") then
+      -- `if p and q:` — the value is computed, then tested for being non-zero (`beqz t ELSE`)
+      match flatE cf fs none (.bin op a b) with
+      | none => none
+      | some (fs1, code, o) => some (fs1, code, "nez", "eqz", [o])
+    else none
+  | .read q args =>
+    if truth then
+      match flatE cf fs none (.read q args) with
+      | none => none
+      | some (fs1, code, o) => some (fs1, code, "nez", "eqz", [o])
+    else none
+  | .un op e =>
+    -- `if not x:` / `if not <device read>:` / `if not (p and q):` — `bnez … ELSE`
+    if truth && op == "not" then
+      match e with
+      | .gvar x =>
+        match fs.lookup x with
+        | some r => some (fs, [], "eqz", "nez", [Opnd.reg r])
+        | none => none
+      | .read q args =>
+        match flatE cf fs none (.read q args) with
+        | none => none
+        | some (fs1, code, o) => some (fs1, code, "eqz", "nez", [o])
+      | .bin op2 a b =>
+        if op2 == "and" || op2 == "or" then
+          match flatE cf fs none (.bin op2 a b) with
+          | none => none
+          | some (fs1, code, o) => some (fs1, code, "eqz", "nez", [o])
+        else none
+      | _ => none
     else none
   | .gvar x =>
     if truth then
